@@ -39,6 +39,7 @@ func causeOf(pm *PMsg) int {
 func (s *Sim) checkStep(ctx *StepCtx) {
 	if ctx.Kind == "deliver" {
 		s.checkDeliver(ctx)
+		s.checkRaw(ctx)
 	}
 	s.checkReports(ctx)
 	if ctx.Kind == "deliver" && ctx.Dg.Intent != nil && !ctx.Dup && ctx.Target != nil && ctx.Target.Live && ctx.Dg.Intent.T != "del" {
@@ -171,6 +172,9 @@ func (s *Sim) checkDeliver(ctx *StepCtx) {
 	if len(ctx.Resp) != 1 {
 		s.violateAny(props, "rsp.exactly-one", fmt.Sprintf("rsp:count:%s", in.T),
 			"%s seq=%d from %s: expected one response of type %d, got %d", in.T, in.Seq, dg.Src, want, len(ctx.Resp))
+		if len(ctx.Resp) == 0 {
+			return
+		}
 	}
 	r := ctx.Resp[0]
 	if r.Type != want {
@@ -332,6 +336,7 @@ func (s *Sim) checkRuleScope(ctx *StepCtx) {
 		x := scope[r.Key.SEID]
 		if x == nil {
 			s.violate("C01", "dp.scope-session", "scope:no-session", "data-plane %s %s for a SEID no message in this step addresses", r.Op, r.Key)
+			continue
 		}
 		ref := RuleRef{r.Key.Kind, uint32(r.Key.ID)}
 		if !x.Ever[ref] {
@@ -397,6 +402,7 @@ func (s *Sim) checkGlobal(ctx *StepCtx) {
 		if !ok {
 			s.violateAny([]string{"C05", "C04", "C08"}, "sessions.kept", "sessions:lost",
 				"session UP %#x (CP %#x, node %s) should be live but the UPF no longer has it (step kind %s)", up, x.CP, x.Node, ctx.Kind)
+			continue
 		}
 		if y.RemoteID != x.CP {
 			s.violateAny([]string{"C05", "C04", "C08"}, "sessions.identity", "sessions:cp-seid",
@@ -421,6 +427,7 @@ func (s *Sim) checkGlobal(ctx *StepCtx) {
 			}
 			s.violateAny([]string{"C01", "C04"}, "rules.live-session", "rules:orphan:"+key.Kind,
 				"data plane holds %s but no live session has SEID %#x%s", key, key.SEID, was)
+			continue
 		}
 		ref := RuleRef{key.Kind, uint32(key.ID)}
 		if !x.Req[ref] {
@@ -446,6 +453,7 @@ func (s *Sim) finalChecks() {
 		s.violate("C09", "tx.released", "tx:leak", "%d transmit transactions remain after all retries were due", st.TxLen)
 	}
 	for _, u := range m.ups {
+		m.abandoned(u, s.since())
 		if !u.Answered && len(u.Sends) != 1+s.cfg.MaxRetrans && s.n4errs() == 0 {
 			s.violate("C09", "tx.retry-count", "tx:retry-count",
 				"request seq=%d to %s was sent %d time(s); unanswered requests are sent 1+%d times", u.Seq, u.Dst, len(u.Sends), s.cfg.MaxRetrans)
